@@ -40,6 +40,12 @@ Theorem C15_one_instruction_per_entity :
      Forall (ginstr_in_tables (o_globals out)) (o_gstack out)).
 Proof. exact run_C15. Qed.
 
+(** The types table of the specification is the first struct declaration of each name, in source
+    order. *)
+Theorem C15_spec_types_first_declarations :
+  forall p : program, spec_types p = first_occs (struct_decls p).
+Proof. exact spec_types_first_declarations. Qed.
+
 (** A declaration whose name is already in its table is reported and changes neither the tables
     nor the stack. *)
 Theorem C15_duplicate_reported_and_ignored :
@@ -172,6 +178,7 @@ Qed.
 
 Print Assumptions C15_tables_stack_roots.
 Print Assumptions C15_one_instruction_per_entity.
+Print Assumptions C15_spec_types_first_declarations.
 Print Assumptions C15_duplicate_reported_and_ignored.
 Print Assumptions C15_first_declaration_wins.
 Print Assumptions C15_declaration_errors.
